@@ -885,6 +885,11 @@ impl C18 {
             ctx.count("shape_long_runs");
             ctx.max("shape_long_run_max_stack", max_stack as u64);
             let pr = s.rt.verif_probe();
+            if st == Stop::Budget {
+                // values may grow from pass to pass until a loop bound is astronomically large: not judged
+                ctx.count("shape_long_runs_not_finished_in_budget");
+                return;
+            }
             if st != Stop::Stopped || max_stack > 64 || pr.stack.len() > 64 {
                 ctx.violation(
                     "leak",
